@@ -1,5 +1,7 @@
 import RallyModel.Team
 import RallyProofs.Team
+import RallyModel.TeamSession
+import RallyProofs.TeamSession
 /-!
 # C13 — cars compose in order with documented precedence; provisioning mirrors templates
 
@@ -330,5 +332,121 @@ example : cleanup false pInstall [pSibling]
     = [([cl!"node"], .dir), ([cl!"node", cl!"install"], .dir), ([cl!"node", cl!"install", cl!"other"], .dir)] := by decide
 example : (deleteConfig ⟨[([cl!"config", cl!"e.yml"], [1]), ([cl!"bin", cl!"es"], [2])], [[cl!"config"], [cl!"bin"]]⟩).toOption
     = some ⟨[([cl!"bin", cl!"es"], [2])], [[cl!"bin"]]⟩ := by decide
+
+/-! ## sessions: several loads / provisionings in one process (model: `RallyModel/TeamSession.lean`)
+
+`run d steps` threads the disk through a list of `write` (a team directory appears or is switched in
+place) and `load` (`team.load_car`, optionally followed by `BareProvisioner.prepare`) steps;
+`answer d root names params prov` is ONE call in a fresh process that sees the disk `d`. -/
+
+/-- every answer of a session is the answer of an independent call on the disk that the `write` steps
+    before it have produced: position in the session, earlier loads (of the same or of another team
+    directory) and later steps do not matter -/
+def independent (d : Disk) : List Step → List Step → List Answer
+  | _, [] => []
+  | pre, .write r t :: ss => independent d (pre ++ [.write r t]) ss
+  | pre, .load r n p pr :: ss =>
+    answer (diskAfter d (pre.filter Step.isWrite)) r n p pr :: independent d (pre ++ [.load r n p pr]) ss
+
+/-- **session_is_map_of_independent_calls**: a sequence of `load_car` / provisioning calls in one process
+    answers exactly like the independent calls, each on the files that are on disk at its moment. -/
+theorem session_is_map_of_independent_calls (d : Disk) (steps : List Step) :
+    run d steps = independent d [] steps := by
+  suffices h : ∀ (ss pre : List Step), run (diskAfter d pre) ss = independent d pre ss from h steps []
+  intro ss
+  induction ss with
+  | nil => intro pre; rfl
+  | cons s ss ih =>
+    intro pre
+    cases s with
+    | write r t =>
+      have := ih (pre ++ [.write r t])
+      rw [diskAfter_append] at this
+      simpa [run, step, independent, diskAfter] using this
+    | load r n p pr =>
+      have := ih (pre ++ [.load r n p pr])
+      rw [diskAfter_append] at this
+      simp only [run, step, independent, diskAfter_filter_writes]
+      simpa [diskAfter] using this
+
+/-- the same, spelled out for one load in the middle of a session -/
+theorem session_answer_is_independent_call (d : Disk) (pre post : List Step) (root : Str) (names : List Str)
+    (params : Vars) (prov : Option Prov) :
+    run d (pre ++ .load root names params prov :: post) =
+      run d pre ++ answer (diskAfter d (pre.filter Step.isWrite)) root names params prov :: run (diskAfter d pre) post := by
+  rw [run_append, diskAfter_filter_writes]
+  simp [run, step]
+
+/-- **loads_leave_no_trace**: dropping a load from a session drops its answer and changes no other answer
+    (no cache, no memo: a load carries nothing over to later calls). -/
+theorem loads_leave_no_trace (d : Disk) (pre post : List Step) (root : Str) (names : List Str)
+    (params : Vars) (prov : Option Prov) :
+    ∃ a rest, run d (pre ++ .load root names params prov :: post) = run d pre ++ a :: rest ∧
+      run d (pre ++ post) = run d pre ++ rest := by
+  refine ⟨answer (diskAfter d pre) root names params prov, run (diskAfter d pre) post, ?_, run_append d pre post⟩
+  rw [run_append]
+  simp [run, step]
+
+/-- **load_reads_only_its_root**: other team directories on disk (with config bases and cars of the same
+    names) have no influence on a load. -/
+theorem load_reads_only_its_root (d d' : Disk) (root : Str) (names : List Str) (params : Vars) (prov : Option Prov)
+    (h : assoc d root = assoc d' root) : answer d root names params prov = answer d' root names params prov :=
+  answer_congr d d' root names params prov h
+
+/-- **load_sees_last_write**: after a team directory was (re)written, a load from it answers as if that
+    content were the only thing the process has ever seen — whatever was there before, whatever was loaded
+    before, and whatever happened to other directories in between. -/
+theorem load_sees_last_write (d : Disk) (pre mid : List Step) (root : Str) (t : TeamDir) (names : List Str)
+    (params : Vars) (prov : Option Prov) (hmid : ∀ s ∈ mid, Step.writesTo root s = false) :
+    answer (diskAfter d (pre ++ .write root t :: mid)) root names params prov = answer [(root, t)] root names params prov := by
+  apply answer_congr
+  rw [diskAfter_append]
+  simp only [diskAfter]
+  rw [assoc_diskAfter_untouched _ _ _ hmid, assoc_writeTeam_same]
+  simp [assoc]
+
+/-- **session_var_precedence**: in every session, the variables of a successfully loaded car follow the
+    documented ranking over the files that are at its root at that moment (car parameter > car / mixin
+    variable, later first > config-base variable, later first). -/
+theorem session_var_precedence (d : Disk) (pre : List Step) (root : Str) (t : TeamDir) (n : Str) (names : List Str)
+    (params : Vars) (prov : Option Prov) (car : Car)
+    (ht : assoc (diskAfter d pre) root = some t)
+    (h : (answer (diskAfter d (pre.filter Step.isWrite)) root (n :: names) params prov).car = .ok car) (k : Str) :
+    dget car.vars k = ranked (params :: (carVarLists t (n :: names)).reverse ++ (baseVarLists t (n :: names)).reverse) k := by
+  rw [diskAfter_filter_writes] at h
+  have hl : loadCar t (n :: names) params = .ok car := by
+    unfold answer loadCarAt at h
+    rw [ht] at h
+    cases hc : loadCar t (n :: names) params with
+    | error e => simp [hc, liftErr] at h
+    | ok c => simp [hc, liftErr] at h; rw [h]
+  exact car_variables_precedence t (n :: names) params car hl k
+
+/-! non-vacuity of the session theorems: two team directories with a config base of the same name and
+    different variables, and one of them switched in place -/
+def sBaseOld : Base := ⟨[(vK, .str (cl!"1g")), (cl!"zen", .str (cl!"3s"))], false, []⟩
+def sBaseNew : Base := ⟨[(vK, .str (cl!"2g")), (cl!"seed", .str (cl!"file"))], false, []⟩
+def sTeamOld : TeamDir := ⟨[(cl!"defaults", ⟨some (cl!"vanilla"), []⟩)], [(cl!"vanilla", sBaseOld)]⟩
+def sTeamNew : TeamDir := ⟨[(cl!"defaults", ⟨some (cl!"vanilla"), []⟩)], [(cl!"vanilla", sBaseNew)]⟩
+def sSteps : List Step :=
+  [.write (cl!"/a") sTeamOld, .load (cl!"/a") [cl!"defaults"] [] none, .write (cl!"/b") sTeamNew,
+   .load (cl!"/b") [cl!"defaults"] [] none, .write (cl!"/a") sTeamNew, .load (cl!"/a") [cl!"defaults"] [] none,
+   .load (cl!"/c") [cl!"defaults"] [] none, .load (cl!"/c") [] [] none]
+
+def heapOf (a : Answer) : Option Val := a.car.toOption.bind (fun c => dget c.vars vK)
+
+/-- three loads: old value, new value from the other directory, new value after the switch in place (and the
+    variable the old base defined is gone); a missing directory is an error unless no car is named -/
+example : (run [] sSteps).map heapOf =
+    [some (.str (cl!"1g")), some (.str (cl!"2g")), some (.str (cl!"2g")), none, none] := by decide
+example : ((run [] sSteps).map (fun a => a.car.toOption.bind (fun c => dget c.vars (cl!"zen")))) =
+    [some (.str (cl!"3s")), none, none, none, none] := by decide
+example : ((run [] sSteps).map (fun a => match a.car with | .error .noTeam => 1 | .error (.team .noConfigBase) => 2 | _ => 0)) =
+    [0, 0, 0, 1, 2] := by decide
+/-- hypotheses of `load_sees_last_write` / `session_var_precedence` are satisfiable -/
+example : ∀ s ∈ [Step.write (cl!"/b") sTeamNew, .load (cl!"/b") [cl!"defaults"] [] none], Step.writesTo (cl!"/a") s = false := by decide
+example : (assoc (diskAfter [] (sSteps.take 5)) (cl!"/a")).isSome = true := by decide
+example : (answer (diskAfter [] ((sSteps.take 5).filter Step.isWrite)) (cl!"/a") [cl!"defaults"] []
+    (some ⟨node0, ⟨[], [[kConfig]]⟩⟩)).prepared.isSome = true := by decide
 
 end C13
